@@ -9,10 +9,16 @@ package uri
 
 import (
 	"io"
+	"net/url"
 	"strings"
 )
 
+var _ = url.PathEscape
+
 //@ use strings
+//@ use join
+//@ use fmt
+//@ use neturl
 //@ use errors
 
 // ---------------------------------------------------------------------------
@@ -353,6 +359,204 @@ func joinFrom(fs []Field, i int, kv, sep byte) string {
 
 //@ func checkNotContains(s string, chars string) (err error)
 //@   ensures refuse: (err == nil) == (forall j in (0, len(s)) :: !memberB(chars, s[j]))
+//@   ensures one:    len(chars) == 1 ==> (err == nil) == (forall j in (0, len(s)) :: s[j] != chars[0])
+
+// ---------------------------------------------------------------------------
+// 2d. Encoder side: receivers (uri/receiver.go) and PathEncoder (uri/path_encoder.go)
+// ---------------------------------------------------------------------------
+
+func wfTyp(t valueType) bool {
+	return t == typeNotSet || t == typeValue || t == typeArray || t == typeObject
+}
+
+//@ func (s *receiver) EncodeValue(v string) (err error)
+//@   modifies s.typ, s.val
+//@   ensures ok:  old(s.typ) == typeNotSet ==> err == nil && s.typ == typeValue && s.val == v
+//@   ensures bad: old(s.typ) != typeNotSet ==> err != nil && s.typ == old(s.typ) && s.val == old(s.val)
+
+//@ func (e *arrayReceiver) EncodeValue(v string) (err error)
+//@   modifies e.set, e.items
+//@   ensures app: err == nil && e.set && vSeqEq(e.items, vCat(old(e.items), []string{v}))
+
+//@ func (e *valueReceiver) EncodeValue(v string) (err error)
+//@   requires once: !e.set
+//@   modifies e.set, e.value
+//@   ensures set: err == nil && e.set && e.value == v
+
+// Harnesses: the real EncodeField / EncodeArray bodies run with the callback shapes the generated
+// encoders use (one EncodeValue call per field; one per item; none for an unset optional field).
+//@ func verifFieldSet(s *receiver, field string, v string) (err error)
+//@   requires nonnil: s != nil
+//@   inline EncodeField
+//@   modifies s.typ, s.fields
+//@   ensures ok:  old(s.typ) == typeNotSet || old(s.typ) == typeObject ==> err == nil && s.typ == typeObject &&
+//@                  len(s.fields) == len(old(s.fields)) + 1 && s.fields[len(s.fields)-1].Name == field && s.fields[len(s.fields)-1].Value == v &&
+//@                  vSeqEq(s.fields[:len(s.fields)-1], old(s.fields))
+//@   ensures bad: old(s.typ) != typeNotSet && old(s.typ) != typeObject ==> err != nil && s.typ == old(s.typ) && vSeqEq(s.fields, old(s.fields))
+func verifFieldSet(s *receiver, field, v string) error {
+	return s.EncodeField(field, func(e Encoder) error { return e.EncodeValue(v) })
+}
+
+//@ func verifFieldUnset(s *receiver, field string) (err error)
+//@   requires nonnil: s != nil
+//@   inline EncodeField
+//@   modifies s.typ, s.fields
+//@   ensures ok: old(s.typ) == typeNotSet || old(s.typ) == typeObject ==> err == nil && s.typ == typeObject && vSeqEq(s.fields, old(s.fields))
+func verifFieldUnset(s *receiver, field string) error {
+	return s.EncodeField(field, func(e Encoder) error { return nil })
+}
+
+//@ func verifArray2(s *receiver, a string, b string) (err error)
+//@   requires nonnil: s != nil
+//@   inline EncodeArray
+//@   modifies s.typ, s.items
+//@   ensures ok:  old(s.typ) == typeNotSet || old(s.typ) == typeArray ==> err == nil && s.typ == typeArray && vSeqEq(s.items, []string{a, b})
+//@   ensures bad: old(s.typ) != typeNotSet && old(s.typ) != typeArray ==> err != nil && s.typ == old(s.typ) && vSeqEq(s.items, old(s.items))
+func verifArray2(s *receiver, a, b string) error {
+	return s.EncodeArray(func(e Encoder) error {
+		if err := e.EncodeValue(a); err != nil {
+			return err
+		}
+		return e.EncodeValue(b)
+	})
+}
+
+// Style table, encoder side (OpenAPI 3.0.3 section 4.7.12.4 "Style Examples", rows simple / label /
+// matrix; p is the escaped parameter name, v / items / fields the escaped texts).
+func specPathEncValue(style PathStyle, p string, v string) string {
+	if style == PathStyleLabel {
+		return "." + v
+	}
+	if style == PathStyleMatrix {
+		return ";" + p + "=" + v
+	}
+	return v
+}
+
+// the delimiter an array item must not contain (checked BEFORE escaping)
+func specPathArrayDelim(style PathStyle, explode bool) byte {
+	if style == PathStyleLabel && explode {
+		return '.'
+	}
+	if style == PathStyleMatrix && explode {
+		return ';'
+	}
+	return ','
+}
+
+//@ func (e *PathEncoder) value() (r string, err error)
+//@   requires recv:  e.receiver != nil
+//@   requires style: validPathStyle(e.style)
+//@   ensures table: err == nil && r == specPathEncValue(e.style, e.param, e.val)
+
+// specPathEncArray: array rows of the style table over the (escaped) items.
+func specPathEncArray(style PathStyle, explode bool, p string, items []string) string {
+	if style == PathStyleLabel {
+		if explode {
+			return "." + joinS(items, ".")
+		}
+		return "." + joinS(items, ",")
+	}
+	if style == PathStyleMatrix {
+		if explode {
+			return ";" + p + "=" + joinS(items, ";"+p+"=")
+		}
+		return ";" + p + "=" + joinS(items, ",")
+	}
+	return joinS(items, ",")
+}
+
+//@ func (e *PathEncoder) array() (r string, err error)
+//@   requires recv:  e.receiver != nil
+//@   requires style: validPathStyle(e.style)
+//@   requires ascii: forall k in (0, len(e.items)) :: asciiStr(e.items[k])
+//@   ensures table: err == nil && r == specPathEncArray(e.style, e.explode, e.param, e.items)
+//@   uses runesCat, runesOfASCII, runeUnitASCII
+//@   loop 0 vars i int, result []rune
+//@   loop 0 invariant range: 0 <= i && i <= len(e.items)
+//@   loop 0 invariant acc:   string(result) + joinS(e.items[i:], ",") == joinS(e.items, ",")
+
+// specPathEncObject: flat-object rows of the style table over the (escaped) fields.
+func specPathEncObject(style PathStyle, explode bool, p string, fields []Field) string {
+	if style == PathStyleLabel {
+		if explode {
+			return "." + joinFrom(fields, 0, '=', '.')
+		}
+		return "." + joinFrom(fields, 0, ',', ',')
+	}
+	if style == PathStyleMatrix {
+		if explode {
+			return ";" + joinFrom(fields, 0, '=', ';')
+		}
+		return ";" + p + "=" + joinFrom(fields, 0, ',', ',')
+	}
+	if explode {
+		return joinFrom(fields, 0, '=', ',')
+	}
+	return joinFrom(fields, 0, ',', ',')
+}
+
+// the separators a field name / value must not contain (checked BEFORE escaping)
+func specPathObjKV(style PathStyle, explode bool) byte {
+	if explode {
+		return '='
+	}
+	return ','
+}
+
+func specPathObjFS(style PathStyle, explode bool) byte {
+	if explode && style == PathStyleLabel {
+		return '.'
+	}
+	if explode && style == PathStyleMatrix {
+		return ';'
+	}
+	return ','
+}
+
+func noByte(s string, c byte) bool {
+	return vForallIn(0, len(s), func(j int) bool { return s[j] != c })
+}
+
+//@ func (e *PathEncoder) object() (r string, err error)
+//@   requires recv:  e.receiver != nil
+//@   requires style: validPathStyle(e.style)
+//@   ensures table: err == nil && r == specPathEncObject(e.style, e.explode, e.param, e.fields)
+
+//@ func (e *PathEncoder) Result() (r string, err error)
+//@   requires recv:   e.receiver != nil
+//@   requires style:  validPathStyle(e.style)
+//@   requires called: e.typ == typeValue || e.typ == typeArray || e.typ == typeObject
+//@   modifies e.receiver.val, e.receiver.items, e.receiver.fields
+//@   ensures param:   e.style == PathStyleMatrix && !noByte(e.param, '=') ==> err != nil
+//@   ensures value:   e.typ == typeValue && (e.style != PathStyleMatrix || noByte(e.param, '=')) ==>
+//@                      err == nil && r == specPathEncValue(e.style, e.param, url.PathEscape(old(e.val)))
+//@   ensures arrRefuse: e.typ == typeArray && (e.style != PathStyleMatrix || noByte(e.param, '=')) ==>
+//@                      (err == nil) == (forall k in (0, len(old(e.items))) :: vTrig(old(e.items)[k]) && noByte(old(e.items)[k], specPathArrayDelim(e.style, e.explode)))
+//@   ensures arrEsc:  e.typ == typeArray && err == nil ==> len(e.items) == len(old(e.items)) &&
+//@                      (forall k in (0, len(e.items)) :: e.items[k] == url.PathEscape(old(e.items)[k]))
+//@   ensures array:   e.typ == typeArray && err == nil ==> r == specPathEncArray(e.style, e.explode, e.param, e.items)
+//@   ensures objRefuse: e.typ == typeObject && (e.style != PathStyleMatrix || noByte(e.param, '=')) ==>
+//@                      (err == nil) == (forall k in (0, len(old(e.fields))) :: vTrig(old(e.fields)[k]) &&
+//@                         noByte(old(e.fields)[k].Name, specPathObjKV(e.style, e.explode)) && noByte(old(e.fields)[k].Value, specPathObjFS(e.style, e.explode)))
+//@   ensures objEsc:  e.typ == typeObject && err == nil ==> len(e.fields) == len(old(e.fields)) &&
+//@                      (forall k in (0, len(e.fields)) :: e.fields[k].Name == url.PathEscape(old(e.fields)[k].Name) && e.fields[k].Value == url.PathEscape(old(e.fields)[k].Value))
+//@   ensures object:  e.typ == typeObject && err == nil ==> r == specPathEncObject(e.style, e.explode, e.param, e.fields)
+//@   loop 0 vars rangeindex int
+//@   loop 0 modifies e.receiver.items
+//@   loop 0 invariant range: -1 <= rangeindex && rangeindex < len(e.items) && len(e.items) == len(old(e.items))
+//@   loop 0 invariant done:  forall k in (0, rangeindex+1) :: e.items[k] == url.PathEscape(old(e.items)[k]) && noByte(old(e.items)[k], specPathArrayDelim(e.style, e.explode))
+//@   loop 0 invariant todo:  forall k in (rangeindex+1, len(e.items)) :: e.items[k] == old(e.items)[k]
+//@   loop 1 vars rangeindex int
+//@   loop 1 modifies e.receiver.fields
+//@   loop 1 invariant range: -1 <= rangeindex && rangeindex < len(e.fields) && len(e.fields) == len(old(e.fields))
+//@   loop 1 invariant done:  forall k in (0, rangeindex+1) :: e.fields[k].Name == url.PathEscape(old(e.fields)[k].Name) && e.fields[k].Value == url.PathEscape(old(e.fields)[k].Value) &&
+//@                              noByte(old(e.fields)[k].Name, specPathObjKV(e.style, e.explode)) && noByte(old(e.fields)[k].Value, specPathObjFS(e.style, e.explode))
+//@   loop 1 invariant todo:  forall k in (rangeindex+1, len(e.fields)) :: e.fields[k] == old(e.fields)[k]
+
+//@ func (e *PathEncoder) checkParam() (err error)
+//@   ensures matrix: e.style == PathStyleMatrix ==> (err == nil) == (forall j in (0, len(e.param)) :: e.param[j] != '=')
+//@   ensures other:  e.style != PathStyleMatrix ==> err == nil
 
 // pieces / okPieces: what the cursor-based array decoders deliver for the remaining input s and
 // whether they succeed (an empty remainder is an error, io.EOF): written from the OpenAPI notion of
